@@ -36,6 +36,10 @@ var handShapes = []string{
 	`{ beings { ... on Human { id name phone } ... on Pet { id kind weight } } }`,
 	`{ a: pets { owner { id friend { id name phone } } } b: pets { owner { friend { phone } } } }`,
 	`{ a: me { friend { name pets { kind } } phone } b: me { friend { id phone } } c: humans { friend { phone name } } }`,
+	// __typename asked for in one fragment only (fix a47d390)
+	`{ beings { ... on Human { name ... on Human { __typename } } ... on Pet { id kind } } }`,
+	`{ beings { ... on Human { id name ... on Human { __typename } } ... on Pet { kind weight } } }`,
+	`{ humans { pets { kind } } beings { ... on Pet { __typename weight } ... on Human { id phone } } }`,
 }
 
 func worldFor(seed int64, domain string) *gen.World {
